@@ -250,6 +250,16 @@ def run(tier, seed, replay):
         "URL classes (https / loopback / script-capable) are computed by the harness with net/url and net/netip",
     ]
     out = vlib.outdir(PID)
+    rep = None
+    if replay:
+        # a violation file: replay exactly that behaviour, with the same seed (the harness derives every
+        # concrete string from the seed and the behaviour id)
+        rep = json.load(open(replay))
+        seed = int(rep.get("seed", seed))
+        v.seed = seed
+    for f in os.listdir(out):  # violation files of earlier runs
+        if f.startswith("violation-") and f.endswith(".json"):
+            os.remove(os.path.join(out, f))
     workers = min(4, vlib.NCPU)
     # 1. design: exhaustive model check of the invariants
     res = vlib.run_tlc("OAuthFlowMC", "OAuthFlow_mc.cfg", workers=workers, timeout=600, heap_gb=4)
@@ -287,14 +297,13 @@ def run(tier, seed, replay):
         raise vlib.MachineryError("vacuity: not reachable in the model: %s" % missing)
     rows = []
     if replay:
-        rep = json.load(open(replay))["replay"]
-        rows = [{"id": "replay", "steps": rep["steps"]}]
+        rows = [{"id": rep["replay"].get("id", "replay"), "steps": rep["replay"]["steps"]}]
         total_edges = 0
         exhaustive = False
     else:
         paths, total_edges = dag_cover(root, edges, seed)
         rows += [{"id": "cover%d" % i, "steps": steps_of(p)} for i, p in enumerate(paths)]
-        nrand = 1000 if tier == "quick" else 20000
+        nrand = 2000 if tier == "quick" else 120000
         for i, p in enumerate(sample_paths(root, edges, cnt, nrand // 2, seed, True)):
             rows.append({"id": "unif%d" % i, "steps": steps_of(p)})
         for i, p in enumerate(sample_paths(root, edges, cnt, nrand - nrand // 2, seed + 7919, False)):
